@@ -98,9 +98,16 @@ fn handle_request(req: &Value) -> RunResult {
         (checks::gen(&check, tier, seed, idx, base), seed)
     };
     let mut r = RunResult::new(idx, seed);
+    let _ = exec::take_run_probes();
     let res = std::panic::catch_unwind(std::panic::AssertUnwindSafe(|| checks::exec(&check, &spec, &mut r)));
     if let Err(e) = res {
         r.outcome = format!("harness-panic: {}", exec::panic_msg(&e));
+    }
+    if check != "TRIAGE" && !checks::NO_SOLVER_PROBES.contains(&check.as_str()) {
+        let probes = exec::take_run_probes();
+        for name in exec::PROBES {
+            r.bump(&format!("probe.{}", name), probes.get(name).cloned().unwrap_or(0));
+        }
     }
     if !r.violations.is_empty() || req.get("want_spec").and_then(|v| v.as_bool()).unwrap_or(false) {
         r.spec = Some(merge_pin(&spec, &r.pin));
@@ -170,7 +177,7 @@ fn minimise(check: &str, spec: Value, class: &str, jobs: usize, timeout: Duratio
     let mut cur = spec;
     let mut rounds = 0u64;
     loop {
-        if t0.elapsed() > Duration::from_secs(180) || rounds > 400 {
+        if t0.elapsed() > Duration::from_secs(if class == "did-not-terminate" { 60 } else { 180 }) || rounds > 400 {
             break;
         }
         let cands = checks::shrink_candidates(check, &cur);
@@ -181,7 +188,12 @@ fn minimise(check: &str, spec: Value, class: &str, jobs: usize, timeout: Duratio
         let res = run_requests(reqs, jobs, timeout);
         let mut next = None;
         for (i, r) in res.iter().enumerate() {
-            if r.outcome == "ok" && has_class(r, class) {
+            if class == "did-not-terminate" {
+                if r.outcome == "timeout" || r.outcome.starts_with("abort") {
+                    next = Some(cands[i].clone());
+                    break;
+                }
+            } else if r.outcome == "ok" && has_class(r, class) {
                 next = Some(r.spec.clone().unwrap_or_else(|| cands[i].clone()));
                 break;
             }
@@ -240,7 +252,7 @@ fn cmd_check(args: &[String]) -> i32 {
     for r in results.iter_mut() {
         if r.outcome == "timeout" || r.outcome.starts_with("abort") {
             println!("EXCLUDED-RUN {} run {}: {}", id, r.idx, r.outcome);
-            if retried >= 12 || !checks::timeouts_are_violations(&id) {
+            if retried >= 8 || !checks::timeouts_are_violations(&id) {
                 continue;
             }
             retried += 1;
@@ -265,8 +277,15 @@ fn cmd_check(args: &[String]) -> i32 {
             harness_errors.push(format!("run {}: {}", r.idx, r.outcome));
         }
         if (r.outcome == "timeout" || r.outcome.starts_with("abort")) && checks::timeouts_are_violations(&id) {
-            let v = Violation { class: "did-not-terminate".into(), detail: format!("run {} ended with {}", r.idx, r.outcome), sig: None };
-            fresh_violations.push((r.idx, r.seed, v, r.spec.clone().unwrap_or(Value::Null)));
+            let seed = rng::run_seed(base, &id, r.idx);
+            let spec = checks::gen(&id, &tier, seed, r.idx, base);
+            let sig = checks::timeout_sig(&id, &spec);
+            let v = Violation { class: "did-not-terminate".into(), detail: format!("run {} ended with {} (wall-clock guard / process abort; re-run in isolation confirmed)", r.idx, r.outcome), sig: sig.clone() };
+            if let Some(f) = findings.open_match(&id, &sig) {
+                *known.entry(format!("{} {}", f.id, f.what)).or_insert(0) += 1;
+            } else {
+                fresh_violations.push((r.idx, seed, v, spec));
+            }
         }
         for v in &r.violations {
             if let Some(f) = findings.open_match(&id, &v.sig) {
@@ -311,7 +330,10 @@ fn cmd_check(args: &[String]) -> i32 {
         };
         // verify that the minimised spec reproduces in a fresh process
         let verify = run_requests(vec![json!({"check": id, "spec": min_spec, "idx": idx})], 1, timeout).remove(0);
-        let (final_spec, detail, reproduced) = if has_class(&verify, class) {
+        let hung = class == "did-not-terminate" && (verify.outcome == "timeout" || verify.outcome.starts_with("abort"));
+        let (final_spec, detail, reproduced) = if hung {
+            (min_spec.clone(), format!("{} ({})", v.detail, verify.outcome), true)
+        } else if has_class(&verify, class) {
             let d = verify.violations.iter().find(|x| &x.class == class).map(|x| x.detail.clone()).unwrap_or_default();
             (verify.spec.clone().unwrap_or(min_spec), d, true)
         } else {
@@ -329,7 +351,7 @@ fn cmd_check(args: &[String]) -> i32 {
         reported += 1;
     }
     let wall = elapsed_s(t0);
-    write_evidence(&meta, &tier, base, &agg, wall, fresh_violations.len(), &known, json!({"runs_requested": n, "violation_classes": by_class.keys().collect::<Vec<_>>(), "isolated_retries": retried}));
+    write_evidence(&meta, &tier, base, &agg, wall, fresh_violations.len(), &known, json!({"exhaustive": id == "C27" && agg.outcomes.get("ok").cloned().unwrap_or(0) == agg.runs, "runs_requested": n, "violation_classes": by_class.keys().collect::<Vec<_>>(), "isolated_retries": retried}));
     println!(
         "{}: {} runs, {} distinct non-trivial shapes, {} db calls simulated, outcomes {:?}, {} violation(s) ({} class(es) reported), {:.1}s",
         id,
@@ -365,7 +387,7 @@ fn cmd_replay(id: &str, path: &str, timeout: Duration) -> i32 {
     };
     let class = file["class"].as_str().unwrap_or("").to_string();
     let spec = file["spec"].clone();
-    let req = if spec.get("world").is_some() || spec.get("kind").is_some() { json!({"check": id, "spec": spec, "idx": file["run_index"]}) } else { spec.clone() };
+    let req = if spec.get("world").is_some() || spec.get("kind").is_some() || spec.get("ops").is_some() { json!({"check": id, "spec": spec, "idx": file["run_index"]}) } else { spec.clone() };
     let r = run_requests(vec![req], 1, timeout * 2).remove(0);
     println!("replay outcome: {}", r.outcome);
     let timed_out = r.outcome == "timeout" || r.outcome.starts_with("abort");
